@@ -332,9 +332,9 @@ theorem edgeColorArray_safe (m : Nat) (data : List Int) {colors : List PyStr} {e
 /-- residual colours are attribute-safe -/
 def ResidSafe (r : List (Nat × Nat × PyStr)) : Prop := ∀ p ∈ r, SafeStr p.2.2
 
-theorem edgeLabelStep_resid {nRow nCol : Nat} {es posEs : List Entry} {colors : List PyStr} (hc : AllSafe colors)
+theorem edgeLabelStep_resid {nRow nCol : Nat} {es : List Entry} {colors : List PyStr} (hc : AllSafe colors)
     {st st' : LabelState} {lab : Int × Int × Int} (hst : ResidSafe st.residual)
-    (h : edgeLabelStep nRow nCol es posEs colors st lab = .ok st') : ResidSafe st'.residual := by
+    (h : edgeLabelStep nRow nCol es colors st lab = .ok st') : ResidSafe st'.residual := by
   unfold edgeLabelStep at h
   simp only at h
   split at h
